@@ -1,7 +1,7 @@
 import itertools
 
 U = ['src/containers/qhasharr.c', 'src/utilities/qhash.c']
-P = ['C06', 'C07', 'C11', 'C12', 'C15']
+P = ['C06', 'C07']
 FIRST, EXT = 32, 66
 
 
@@ -51,7 +51,7 @@ def cinit(img):
     return '{' + ','.join('{' + ','.join(str(v) for v in s) + '}' for s in img) + '}'
 
 
-def inst(hms, vss=(None,), quick_step=12):
+def inst(hms, vss=(None,), quick_step=24):
     """quick tier: every quick_step-th structure of the 2-slot tables; thorough: all of them (each instance costs ~1-2 min)"""
     out = []
     for hm in hms:
@@ -68,7 +68,7 @@ def inst(hms, vss=(None,), quick_step=12):
 
 def ag(name, entry, funcs, instances, **kw):
     d = dict(name='hasharr_' + name, harness='qhasharr/hasharr.c', entry=entry, mode='unwind', unwind=8, fp=True, props=P, functions=funcs,
-             units=U, strength='bounded', timeout=900, weave={'src/containers/qhasharr.c': {'rules': 'weave/rules/qhasharr.json'}}, flags=['--memory-leak-check'], native_leaks=True, unwindset='qv_memcpy.0:17',
+             units=U, strength='bounded', timeout=1500, weave={'src/containers/qhasharr.c': {'rules': 'weave/rules/qhasharr.json'}}, flags=['--memory-leak-check'], native_leaks=True, unwindset='qv_memcpy.0:17',
              bound='every well-formed slot structure of a table with HM slots (2 slots: quick a ninth of the 97 structures, thorough all) over a 3-key alphabet with uninterpreted placement hash; block sizes 1 and full; value bytes arbitrary; put value length VS in {1,33,99}',
              instances=instances)
     d.update(kw)
@@ -77,9 +77,9 @@ def ag(name, entry, funcs, instances, **kw):
 
 GROUPS = [
     ag('put', 'h_put', ['qhasharr_put_by_obj', 'put_data', 'get_idx', 'find_avail', 'copy_slot', 'remove_slot', 'remove_data', 'qhasharr_remove_by_idx'],
-       inst((2,), (1, 33, 99)), unwindset='qv_memcpy.0:17,qhashmd5.0:17'),
+       inst((2,), (33,)) + [dict(d, tier='thorough') for d in inst((2,), (1, 99))], unwindset='qv_memcpy.0:17,qhashmd5.0:17'),
     ag('get_remove', 'h_get_remove', ['qhasharr_get_by_obj', 'get_data', 'get_idx', 'qhasharr_remove_by_obj', 'qhasharr_remove_by_idx', 'qhasharr_size'], inst((2,))),
     ag('idx_walk_clear', 'h_idx_walk_clear', ['qhasharr_remove_by_idx', 'qhasharr_getnext', 'qhasharr_clear'], inst((2,))),
-    ag('init_attach', 'h_init_attach', ['qhasharr', 'qhasharr_calculate_memsize', 'qhasharr_free'], [dict(HM=2, unwind=6), dict(HM=4, unwind=6)], props=['C07', 'C11']),
+    ag('init_attach', 'h_init_attach', ['qhasharr', 'qhasharr_calculate_memsize', 'qhasharr_free'], [dict(HM=2, unwind=6), dict(HM=4, unwind=6)], props=['C07']),
     ag('relocate', 'h_relocate', ['qhasharr_put_by_obj', 'qhasharr'], inst((2,), (33,)), props=['C07'], unwindset='qv_memcpy.0:17,qhashmd5.0:17'),
 ]
